@@ -464,6 +464,11 @@ pub fn gen_c08x(rng: &mut Rng, _k: usize, _tier: &str) -> J {
         ("SELECT CAST(a AS FLOAT) / 3 AS q, CAST(c AS INTEGER) AS i, CAST(b AS TEXT) AS t FROM t1".to_string(), false),
         ("SELECT a AS x FROM t1 AS u WHERE u.b > 0".to_string(), false),
         ("SELECT count(DISTINCT d) AS n, count(DISTINCT b) AS m FROM t1".to_string(), false),
+        // a CTE name defined again, differently, in a nested WITH (derived table / CTE body): the inner definition shadows the outer one
+        (format!("WITH t AS (SELECT a AS a FROM t1 WHERE b > 0) SELECT s.x AS x FROM (WITH t AS (SELECT a + {} AS a FROM t1) SELECT a AS x FROM t) AS s", rng.range(1, 9)), false),
+        (format!("WITH t AS (SELECT a AS a FROM t1), u AS (WITH t AS (SELECT a + {k} AS a FROM t2) SELECT a AS a FROM t) SELECT t.a AS x, u.a AS y FROM t JOIN u ON t.a + {k} = u.a", k = rng.range(1, 9)), false),
+        ("WITH t AS (SELECT a AS a FROM t1 WHERE a > 3) SELECT s.x AS x, t.a AS y FROM (WITH t AS (SELECT a AS a FROM t1 WHERE a <= 3) SELECT a AS x FROM t) AS s JOIN t ON s.x + 4 = t.a".to_string(), false),
+        ("WITH t AS (SELECT d AS d FROM t1) SELECT q.n AS n FROM (WITH t AS (SELECT g AS d FROM t2) SELECT count(*) AS n FROM t WHERE d = 'w') AS q".to_string(), false),
     ];
     let (sql, ordered) = templates[rng.below(templates.len() as u64) as usize].clone();
     json!({"sql": sql, "ordered": ordered, "data_seed": rng.next() % 1000000})
